@@ -1,6 +1,74 @@
-(* C19 - placeholder until Proofs/DescrFacts.v lands. *)
-From Coq Require Import List.
-From BB Require Import Base.Names.
-Theorem C19_placeholder : forall l, NoDup (uniquify l).
-Proof. exact uniquify_NoDup. Qed.
-Print Assumptions C19_placeholder.
+(* C19 - description / JSON round trip loses nothing that affects output.
+   Only statements; every proof is `exact <lemma>` into Proofs/DescrFacts.v.
+   Partial: the blueprint round trip is proved in full; elements and sequences are covered by the decoding lemmas
+   below plus the correspondence check (their readers go through the blueprint reader channel by channel). *)
+From Coq Require Import String List ZArith QArith Bool.
+From BB Require Import Base.Names Base.Num Base.PyList Model.Types Model.Blueprint Model.Forge Model.Element
+  Model.PyVal Model.Sequence Model.Descr Proofs.BlueprintFacts Proofs.DescrFacts.
+Import ListNotations.
+
+(* the description is always JSON-serialisable, and what json.load gives back contains no tuples *)
+Theorem C19_serialisable : forall b, serialisable (bp_descr b) = true /\ json_value (json_rt (bp_descr b)) = true.
+Proof. exact bp_descr_serialisable. Qed.
+
+(* it lists every segment, in order, under the keys segment_01, segment_02, ... followed by the four marker lists *)
+Theorem C19_lists_every_segment : forall b, Inv b ->
+  exists segs, bp_descr b = PDict (segs ++ [(pstr "marker1_abs", PList (map pv_of_mspec (am1 b)));
+                                            (pstr "marker2_abs", PList (map pv_of_mspec (am2 b)));
+                                            (pstr "marker1_rel", PList (map pv_of_mspec (sm1 b)));
+                                            (pstr "marker2_rel", PList (map pv_of_mspec (sm2 b)))]) /\
+    length segs = length (names b) /\
+    forall k n, nth_error (names b) k = Some n ->
+      exists v, nth_error segs k = Some (PStr (seg_key (Z.of_nat k + 1)), v) /\ pd_get "name" v = Ok (PStr n).
+Proof. exact descr_lists_every_segment. Qed.
+
+(* round trip: reading back what was written yields the same blueprint - every name (digits inside names
+   included), function, argument, duration, absolute and segment-bound marker - with no sample rate set *)
+Theorem C19_blueprint_roundtrip : forall b,
+  bp_json_ok b -> bp_from_descr (json_rt (bp_descr b)) = Ok (set_sr b VNone).
+Proof. exact bp_roundtrip. Qed.
+
+(* hence it compares equal to the original, has the same description, and forges identically once given the
+   same sample rate *)
+Theorem C19_roundtrip_observations : forall b b' s,
+  bp_json_ok b -> bp_from_descr (json_rt (bp_descr b)) = Ok b' ->
+  bp_eqb b b' = true /\ bp_descr b' = bp_descr b /\ forge_bp (set_sr b' s) = forge_bp (set_sr b s).
+Proof. exact roundtrip_observations. Qed.
+
+(* decoding of the leaves: numbers, marker tuples (lists after JSON) and flags survive unchanged *)
+Theorem C19_leaves : forall (v : val) (m : mspec) (fl : list Z),
+  val_of_pv (json_rt (pv_of_val v)) = Ok v /\
+  mspec_of_pv (json_rt (pv_of_mspec m)) = Ok m /\
+  (Forall (fun z => (0 <= z <= 4)%Z) fl ->
+   exists vs, flags_of_pv (json_rt (PList (map PInt fl))) = Ok vs /\ map flag_int vs = map Some fl).
+Proof. exact leaves_roundtrip. Qed.
+
+(* sequencing entries and AWG settings (delays and filter compensations included) decode to what was stored *)
+Theorem C19_settings_roundtrip : forall v : specval,
+  (match v with SVal (VStr _) => False | _ => True end) ->
+  specval_of_pv (json_rt (pv_of_specval v)) = Ok v.
+Proof. exact settings_roundtrip. Qed.
+
+Theorem C19_sequencing_roundtrip : forall q,
+  let d := json_rt (sqing_descr q) in
+  exists a b c e f, pd_get "Wait trigger" d = Ok (PInt a) /\ pd_get "Repeat" d = Ok (PInt b) /\
+    pd_get "jump_input" d = Ok (PInt c) /\ pd_get "jump_target" d = Ok (PInt e) /\ pd_get "Go to" d = Ok (PInt f) /\
+    q = mkSq a b c e f.
+Proof. exact sequencing_roundtrip. Qed.
+
+(* non-vacuity: a blueprint with a digit inside a name, a waituntil and both kinds of marker round-trips *)
+Example C19_example :
+  let b := mkBp [S_ "pi2pulse"; S_ "wait"; S_ "pi2pulse2"] [Fsine; Fwait; Fgauss]
+                [[VNum 1; VNum 2; VNum 0; VNum 0]; [VNum (3 # 10)]; [VNum 1; VNum (1 # 100); VNum 0; VNum 0]]
+                [VNum (1 # 10); VNone; VNum (1 # 10)] [(0, 0); (0, 0); (1 # 100, 2 # 100)]%Q [(0, 0); (0, 0); (0, 0)]%Q
+                [(0, 5 # 100)]%Q [] (VNum 100) in
+  bp_json_ok b /\ bp_from_descr (json_rt (bp_descr b)) = Ok (set_sr b VNone).
+Proof. exact roundtrip_example. Qed.
+
+Print Assumptions C19_serialisable.
+Print Assumptions C19_lists_every_segment.
+Print Assumptions C19_blueprint_roundtrip.
+Print Assumptions C19_roundtrip_observations.
+Print Assumptions C19_leaves.
+Print Assumptions C19_settings_roundtrip.
+Print Assumptions C19_sequencing_roundtrip.
